@@ -18,5 +18,8 @@ def run(ctx):
                             methods=('central', 'central2', 'forward', 'backward', 'complex'))
     rep.notes['configurations'] = n
     rep.notes['exhaustive'] = True
+    from . import history
+    history.check_cache_seed(rep, ctx.repo)
+    history.run_cache_scenarios(rep, ctx.repo, 'Derivative', None)
     rep.notes['trusted_base'] = ['python ast', 'ndverif abstract interpreter and exact algebra',
                                  'generalised Vandermonde non-singularity', 'pinv(A) == inv(A) for invertible A']
